@@ -33,7 +33,7 @@ DISPATCH_CLASSES = zoo.ALL_CLASSES + [Leaf3, Leaf4, SubBin, SubTup]
 def sample(cls):
     """an instance of every dispatch class"""
     L = zoo.Leaf
-    if cls in (zoo.Un,):
+    if cls in (zoo.Un, zoo.UnPlus):
         return cls(L(v=1))
     if cls in (zoo.Bin, SubBin):
         return cls(L(v=1), L(v=2))
